@@ -72,6 +72,51 @@ class TermModel:
                 out.add(bb)
         return out
 
+    def descent_blocks(self, body, scc):
+        """blocks of the cycle that step a cursor to a *child* of what it pointed to: a reference-typed
+        local re-assigned, inside the cycle, to a place reached from its own previous value through at
+        least one field / variant projection (Box-owned trees are finite and acyclic)"""
+        out = set()
+        du = defuse(body)
+        for bb in scc:
+            for st in body.blocks[bb]['stmts']:
+                if st['k'] != 'assign' or st['pl']['p']:
+                    continue
+                l = st['pl']['l']
+                if not body.locals[l]['ty'].startswith('&'):
+                    continue
+                rv = st['rv']
+                if rv['k'] not in ('ref', 'use', 'copy_for_deref'):
+                    continue
+                # does the new value derive from l itself, with a projection, through defs inside the cycle?
+                seen = set()
+                work = [(rv['pl'] if rv['k'] != 'use' else (rv['op'].get('pl')), 0)]
+                hit = False
+                while work:
+                    pl, nproj = work.pop()
+                    if pl is None:
+                        continue
+                    np2 = nproj + len([e for e in pl['p'] if isinstance(e, dict) and ('f' in e or 'dc' in e)])
+                    if pl['l'] == l and np2 > 0:
+                        hit = True
+                        break
+                    if (pl['l'], np2 > 0) in seen:
+                        continue
+                    seen.add((pl['l'], np2 > 0))
+                    for (b2, i2, kind, payload, dproj) in du.defs.get(pl['l'], []):
+                        if b2 not in scc or kind != 'assign':
+                            continue
+                        r2 = payload
+                        if r2['k'] in ('ref', 'copy_for_deref'):
+                            work.append((r2['pl'], np2))
+                        elif r2['k'] == 'use' and r2['op'].get('pl') is not None:
+                            work.append((r2['op']['pl'], np2))
+                        elif r2['k'] == 'cast' and r2['op'].get('pl') is not None:
+                            work.append((r2['op']['pl'], np2))
+                if hit:
+                    out.add(bb)
+        return out
+
     def _recreated_in(self, body, op, scc):
         """is the root local of a &mut receiver (re)assigned by something other than a reborrow inside the cycle?"""
         from r_panic import root_place
@@ -100,7 +145,7 @@ def rule_loop(tm, bodies):
         for k, scc in enumerate(sorted(b.sccs(), key=lambda s: min(s))):
             n += 1
             key = 'LOOP|%s|#%d' % (b.name, k)
-            adv = tm.advancing_blocks(b, scc)
+            adv = tm.advancing_blocks(b, scc) | tm.descent_blocks(b, scc)
             rest = sorted(scc - adv)
             succ = {x: [y for y in b.succ[x] if y in scc and y not in adv] for x in rest}
             cyc = _sccs(rest, succ)
@@ -120,6 +165,9 @@ def _scc_label(tm, prog, scc):
     if any(m.id in {p.id for p in roles.parse_bodies} for m in members):
         return 'parser-descent'
     names = sorted(m.name for m in members)
+    if all(m.derived for m in members):
+        tys = sorted({re.sub(r"<'\w+>", '', (m.impl_self or '?')) for m in members})
+        return 'derived-impls-of:' + '+'.join(tys)
     pub = [m.name for m in members if m.is_pub and not m.is_closure]
     if pub:
         return 'through:' + sorted(pub)[0]
@@ -165,7 +213,7 @@ def rule_rec(tm, reach_ids):
         label = _scc_label(tm, prog, scc)
         k = seen_labels.get(label, 0)
         seen_labels[label] = k + 1
-        key = 'REC|%s%s' % (label, '' if k == 0 else '#%d' % k)
+        key = 'REC|%s' % label
         g = _has_depth_guard(prog, scc)
         names = sorted(prog.by_id[x].name.split('::')[-1] if not prog.by_id[x].impl_trait else prog.by_id[x].name for x in scc)
         if g:
